@@ -147,13 +147,13 @@ def _on_alarm(signum, frame):
     raise EventTimeout('the call did not return within %d s (a pristine call takes milliseconds)' % EVENT_SECONDS)
 
 
-EVENT_SECONDS = 120
-PREFIX_PROBLEM_CAP = 25
+EVENT_SECONDS = 30
+PREFIX_PROBLEM_CAP = 8
 
 
 def guard_resources():
     """a library whose results grow with the call history (a shared shape split again by every call, say) must end as a reported
-    difference, not as a machine without memory: 8 GB address space per explorer process, 120 s per event"""
+    difference, not as a machine without memory: 8 GB address space per explorer process, 30 s per event"""
     import resource
     import signal
     try:
